@@ -46,7 +46,7 @@ class Contract:
     def __init__(self, file, qualname, *, types=None, requires=(), cases=None, ensures_all=(),
                  modifies=(), loops=None, inline=False, guarded_by=None, returns_kind=None,
                  ghost=None, props=(), pure=False, locals=None, trusted=False, note="",
-                 allow_raise=(), fresh_result=False, setup=None, verify=True, assume_after=None, no_self_inline=False, variant=None,
+                 allow_raise=(), fresh_result=False, setup=None, verify=True, assume_after=None, no_self_inline=False, variant=None, call_variants=None,
                  lemma_src=None, lemma_module=None, inline_callees=None, effect=None):
         self.file = file
         self.qualname = qualname
@@ -71,7 +71,7 @@ class Contract:
         self.verify = verify
         self.no_self_inline = no_self_inline
         self.variant = variant            # several contracts for one function (e.g. per dispatch class)
-        self.call_variants = {}           # for callers: which variant of a variant-only callee a call goes through
+        self.call_variants = dict(call_variants or {})     # for callers: which contract variant of a callee a call goes through
         self.lemma_src = lemma_src        # a lemma: a small program over contracts (asserts are obligations)
         self.lemma_module = lemma_module
         # {callee qualname: {loop ordinal: LoopSpec}}: callees inlined (mechanically, from their real source) at this
